@@ -92,7 +92,7 @@ fn replay(a: &Args) {
     let mut w = BufWriter::new(File::create(out).unwrap());
     let rd = BufReader::new(File::open(inp).unwrap());
     let (mut behaviours, mut runs, mut calls, mut agree, mut disagree, mut kept, mut blocks) = (0usize, 0usize, 0usize, 0usize, 0usize, 0usize, 0usize);
-    let (mut pool_runs, mut unwinding_calls) = (0usize, 0usize);
+    let (mut pool_runs, mut unwinding_calls, mut closing) = (0usize, 0usize, 0usize);
     let contexts = !a.flag("plain");
     let mut samples: Vec<Value> = Vec::new();
     let mut bad_samples: Vec<Value> = Vec::new();
@@ -154,6 +154,10 @@ fn replay(a: &Args) {
                 pool_runs += 1;
             }
             for e in &evs[1..] {
+                if e["closing"] == true {
+                    closing += 1;
+                    continue;
+                }
                 calls += 1;
                 *ops_seen.entry(e["op"].as_str().unwrap().to_string()).or_default() += 1;
                 if e["unwinding"] == true {
@@ -188,7 +192,7 @@ fn replay(a: &Args) {
     println!(
         "{}",
         json!({"behaviours":behaviours,"runs":runs,"calls":calls,"agree":agree,"disagree":disagree,"kept_agreeing":kept,
-               "blocks_written":blocks,"runs_on_rayon_worker":pool_runs,"calls_issued_while_unwinding":unwinding_calls,"ops":ops_seen,"samples":samples,"disagree_samples":bad_samples})
+               "blocks_written":blocks,"runs_on_rayon_worker":pool_runs,"calls_issued_while_unwinding":unwinding_calls,"closing_releases":closing,"ops":ops_seen,"samples":samples,"disagree_samples":bad_samples})
     );
 }
 
